@@ -1,0 +1,510 @@
+//go:build verif
+// +build verif
+
+package raft
+
+// Contracts for the FSM goroutine, snapshot taking and the snapshot store
+// (fsm.go, snapshots.go): C03, C09, C12, C19 (+ C10 snapshot publish).
+// Comment-only file.
+
+// ---------------------------------------------------------------------------
+// STUB (outside area fsm)
+// (*task).reply: trusted because the observable effect (closing t.done) is a channel
+// operation (T-go) and the reply counter is a ghost; same shape as the leader area.
+
+//@ ghost field task.greplied int
+
+//@ func (*task).reply
+//@   trusted
+//@   nilable t
+//@   modifies t.result, t.greplied
+//@   ensures [C15.reply-once] t != nil ==> t.greplied == old(t.greplied) + 1 && t.result == result
+
+// ---------------------------------------------------------------------------
+// onSnapReq (C09, C12)
+
+//@ func (*stateMachine).onSnapReq
+//@   props C09 C12
+//@   requires fsm.FSM != nil && fsm.snaps != nil && t.task != nil
+//@   modifies t.task.result, t.task.greplied
+//@   ensures [C09.snapshot-at-applied] istype(t.task.result, fsmSnapResp) ==> as(t.task.result, fsmSnapResp).index == fsm.index && as(t.task.result, fsmSnapResp).term == fsm.term
+//@   ensures [C12.index-term] istype(t.task.result, fsmSnapResp) ==> as(t.task.result, fsmSnapResp).index == old(fsm.index) && as(t.task.result, fsmSnapResp).term == old(fsm.term)
+//@   ensures [C09.snapshot-needed] istype(t.task.result, fsmSnapResp) ==> fsm.index != fsm.snaps.index && fsm.index >= t.index
+//@   ensures [C09.no-updates] fsm.index == fsm.snaps.index ==> istype(t.task.result, plainError) && as(t.task.result, plainError) == ErrNoUpdates
+//@   ensures [C09.threshold] fsm.index != fsm.snaps.index && fsm.index < t.index ==> istype(t.task.result, plainError) && as(t.task.result, plainError) == ErrSnapshotThreshold
+//@   ensures [C15.reply-once] t.task.greplied == old(t.task.greplied) + 1
+// (dropped: an OpError built from the nil `err` instead of `doneErr` -- D13 -- only arises after a storage error, which is outside the premise of C15; noted in DESIGN.md)
+//@   ensures [C09.threshold-only] istype(t.task.result, plainError) && as(t.task.result, plainError) == ErrSnapshotThreshold ==> fsm.index < t.index || fsm.index == fsm.snaps.index
+
+// ---------------------------------------------------------------------------
+// onApply (C03, C19)
+//
+// Ghost view of the CONTENT of a log (view) object, as the FSM goroutine sees it:
+//   Log.geidx[i], geterm[i], getyp[i] : index/term/type fields of the entry whose encoding is
+//                                       stored at position i (gprev < i <= glast)
+// bIdx/bTerm/bTyp(arr, base): the fields of the entry encoded in the byte slice that starts at
+// absolute position base of array arr (T-std: decoding is a function of the bytes).
+
+//@ ghost field Log.geidx map[uint64]uint64
+//@ ghost field Log.geterm map[uint64]uint64
+//@ ghost field Log.getyp map[uint64]uint64
+//@ ghost func bIdx(uint64, uint64) uint64
+//@ ghost func bTerm(uint64, uint64) uint64
+//@ ghost func bTyp(uint64, uint64) uint64
+
+// trusted abstract view of log.Log.Get (verified in the log package as C13.get-entry /
+// C13.get-notfound): found iff gprev < i; the bytes returned are the stored entry i.
+//@ view (*log.Log).Get
+//@   requires [C13.get-range] i <= l.glast
+//@   ensures (result1 != nil) == (i <= l.gprev)
+//@   ensures result1 == nil ==> bIdx(arrof(result0), base(result0)) == l.geidx[i] && bTerm(arrof(result0), base(result0)) == l.geterm[i] && bTyp(arrof(result0), base(result0)) == l.getyp[i]
+
+// trusted (external, T-std): a reader over b yields the entry encoded in b as its next entry.
+//@ func bytes.NewReader
+//@   trusted
+//@   ensures result0 != nil && isfresh(result0)
+//@   ensures sIdx(ref(result0), spos[ref(result0)]) == bIdx(arrof(b), base(b)) && sTerm(ref(result0), spos[ref(result0)]) == bTerm(arrof(b), base(b)) && sTyp(ref(result0), spos[ref(result0)]) == bTyp(arrof(b), base(b))
+
+// STUB (outside area fsm) -- same text as in the leader area
+//@ ghost field newEntry.gpos int
+//@ pure IsLog(t entryType) bool = t != entryRead && t != entryDirtyRead && t != entryBarrier
+//@ func (*entry).isLogEntry
+//@   ensures result0 == IsLog(e.typ)
+
+// Channel invariant of fsm.ch for an fsmApply message (DESIGN 2.5), assumed as precondition:
+//   ApplyLogWF : the view holds, at every position i, an entry whose index field is i;
+//                Log.gnupd[i] is DEFINED as the number of entryUpdate entries at positions <= i
+//   fq         : ghost set of the newEntry nodes of the chain t.neHead -> ... -> nil
+//   gpos       : position of a node in the chain; gnupd: number of entryUpdate nodes before it;
+//                fqUpd: number of entryUpdate nodes of the whole chain
+//   ChainOK    : consecutive indexes: the successor of a log entry has index+1, the successor of
+//                a non-log entry (read/barrier) has the same index; tasks are not shared
+// The user callback FSM.Update is observed through the ghost counter gupd (number of calls).
+//@ ghost var fq map[uint64]bool
+//@ ghost var fqUpd int
+//@ ghost var gupd int
+//@ ghost field Log.gnupd map[uint64]int
+//@ ghost field newEntry.gnupd int
+
+// trusted (user callback, T-cb): counts the call; touches no raft state.
+//@ func FSM.Update
+//@   trusted
+//@   modifies gupd
+//@   ensures gupd == old(gupd) + 1
+
+//@ pure IsUpd(t entryType) int = ite(t == entryUpdate, 1, 0)
+//@ pure ApplyLogWF(l *log.Log) bool = l != nil && l.gprev <= l.glast && forall(i, l.gprev < i && i <= l.glast ==> l.geidx[i] == i && l.gnupd[i] == l.gnupd[i-1] + IsUpd(l.getyp[i]))
+//@ pure NextIdx(x *newEntry) uint64 = ite(IsLog(x.typ), x.index + 1, x.index)
+//@ pure ChainElem(x *newEntry) bool = x != nil && x.entry != nil && (x.next != nil ==> fq[ref(x.next)] && x.next.index == NextIdx(x) && x.next.gpos == x.gpos + 1 && x.next.gnupd == x.gnupd + IsUpd(x.typ))
+//@ pure ChainSep(x *newEntry, y *newEntry) bool = x != y ==> x.gpos != y.gpos && (x.task != nil ==> x.task != y.task)
+//@ pure ChainOK(h *newEntry) bool = (h != nil ==> fq[ref(h)] && h.gnupd == 0 && forall(x, fq[x] ==> NotAfter(h, x))) && (h == nil ==> fqUpd == 0 && forall(x, !fq[x])) && forall(x, fq[x] ==> ChainElem(x)) && forall(x, y, fq[x] && fq[y] ==> ChainSep(x, y))
+//@ pure NotAfter(y *newEntry, x *newEntry) bool = y.gpos <= x.gpos
+//@ pure ChainLast(x *newEntry, l *log.Log) bool = x.next == nil ==> NextIdx(x) == l.glast + 1 && x.gnupd + IsUpd(x.typ) == fqUpd && forall(y, fq[y] ==> NotAfter(y, x))
+//@ pure ChainEnd(l *log.Log) bool = forall(x, fq[x] ==> ChainLast(x, l))
+//@ pure Front(t fsmApply) uint64 = ite(t.neHead == nil, t.log.glast + 1, t.neHead.index)
+//@ pure RepliedUpTo(x *newEntry, ne *newEntry) bool = x.task != nil ==> x.task.greplied == old(x.task.greplied) + ite(ne == nil || x.gpos < ne.gpos, 1, 0)
+//@ pure TermFromChain(fsm *stateMachine) bool = exists(x, fq[x] && LogNodeAt(x, fsm.index, fsm.term))
+//@ pure LogNodeAt(x *newEntry, i uint64, t uint64) bool = IsLog(x.typ) && x.index == i && x.term == t
+
+//@ pure EntSame(e *entry) bool = *e == old(*e)
+//@ func (*stateMachine).onApply
+//@   props C03 C19
+//@   nilable t.neHead
+//@   requires fsm.FSM != nil
+//@   requires [PA-ch.apply-view] ApplyLogWF(t.log) && t.log.gprev <= fsm.index && fsm.index <= t.log.glast
+//@   requires [PA-ch.apply-chain] ChainOK(t.neHead) && ChainEnd(t.log)
+//@   requires [PA-ch.apply-head] t.neHead != nil ==> fsm.index + 1 <= t.neHead.index && t.neHead.index <= t.log.glast + 1
+//@   requires t.log.glast < 18446744073709551615
+//@   modifies fsm.index, fsm.term, task.result, task.greplied, spos, gupd
+//@   maypanic OpError
+//@   ensures [C03.apply-contiguous] fsm.index == t.log.glast
+//@   ensures [C19.applied-monotone] fsm.index >= old(fsm.index)
+//@   ensures [C03.apply-exactly-once] gupd == old(gupd) + (t.log.gnupd[old(Front(t)) - 1] - t.log.gnupd[old(fsm.index)]) + fqUpd
+//@   ensures [C03.apply-term] (fsm.index == old(fsm.index) ==> fsm.term == old(fsm.term)) && (fsm.index > old(fsm.index) ==> (fsm.index < old(Front(t)) && fsm.term == t.log.geterm[fsm.index]) || TermFromChain(fsm))
+//@   ensures [C07.reply-once] forall(x, fq[x] ==> RepliedUpTo(x, nil))
+//@   loop 1 invariant fsm.index >= old(fsm.index) && fsm.index + 1 <= front
+//@   loop 1 invariant forall(x, !isfresh(x) ==> EntSame(x))
+//@   loop 1 invariant front == old(Front(t))
+//@   loop 1 invariant gupd == old(gupd) + (t.log.gnupd[fsm.index] - t.log.gnupd[old(fsm.index)])
+//@   loop 1 invariant (fsm.index == old(fsm.index) ==> fsm.term == old(fsm.term)) && (fsm.index > old(fsm.index) ==> fsm.term == t.log.geterm[fsm.index])
+//@   loop 2 invariant fsm.index >= old(fsm.index) && (ne != nil ==> fq[ref(ne)] && ne.index == fsm.index + 1) && (ne == nil ==> fsm.index == t.log.glast)
+//@   loop 2 invariant gupd == old(gupd) + (t.log.gnupd[old(Front(t)) - 1] - t.log.gnupd[old(fsm.index)]) + ite(ne == nil, fqUpd, ne.gnupd)
+//@   loop 2 invariant (fsm.index == old(fsm.index) ==> fsm.term == old(fsm.term)) && (fsm.index > old(fsm.index) ==> (fsm.index < old(Front(t)) && fsm.term == t.log.geterm[fsm.index]) || TermFromChain(fsm))
+//@   loop 2 invariant forall(x, fq[x] ==> RepliedUpTo(x, ne))
+
+// ---------------------------------------------------------------------------
+// snapshot store: ghost file system (extends T-fs of the reference file: fs[p] == file p exists)
+//   mfile(dir, i) / sfile(dir, i) : path ids of <dir>/<i>.meta and <dir>/<i>.snap (T-std: decimal
+//                                   formatting and filepath.Join are injective); pjoin = filepath.Join
+//   fdone[p]  : the file at p has been written through a handle that was closed without error since
+//               p was last created/truncated ("complete")
+//   fsize[p]  : its size
+//   lIdx/lTerm/lCfgIdx/lCfgTerm/lSize [p] : the snapshot label encoded in the (meta) file at p
+//   File.gpath: path a *os.File was opened on; File.gwr: opened for writing
+
+//@ ghost func mfile(string, uint64) uint64
+//@ ghost func sfile(string, uint64) uint64
+//@ ghost func pjoin(string, string) uint64
+//@ ghost func pidx(uint64) uint64
+//@ ghost func pkind(uint64) uint64
+//@ axiom [T-std.snapfile-names] forall(d, i, pidx(mfile(d, i)) == i && pkind(mfile(d, i)) == 1 && pidx(sfile(d, i)) == i && pkind(sfile(d, i)) == 2)
+//@ axiom [T-std.tmpfile-name] forall(d, pkind(pjoin(d, "meta.tmp")) == 3)
+
+//@ ghost var fdone map[uint64]bool
+//@ ghost var fsize map[uint64]int
+//@ ghost var lIdx map[uint64]uint64
+//@ ghost var lTerm map[uint64]uint64
+//@ ghost var lCfgIdx map[uint64]uint64
+//@ ghost var lCfgTerm map[uint64]uint64
+//@ ghost var lSize map[uint64]int
+//@ ghost field File.gpath uint64
+//@ ghost field File.gwr bool
+
+//@ func metaFile
+//@   trusted
+//@   ensures result0 == mfile(dir, index)
+//@ func snapFile
+//@   trusted
+//@   ensures result0 == sfile(dir, index)
+
+// trusted (external, T-fs)
+//@ func os.Create
+//@   trusted
+//@   modifies fs, fdone, fsize
+//@   ensures result1 == nil ==> result0 != nil && isfresh(result0) && result0.gpath == name && result0.gwr && fs[name] && !fdone[name]
+//@   ensures result1 != nil ==> result0 == nil
+//@   ensures forall(p, p != name ==> fs[p] == old(fs[p]) && fdone[p] == old(fdone[p]) && fsize[p] == old(fsize[p]))
+
+//@ func os.Open
+//@   trusted
+//@   ensures result1 == nil ==> result0 != nil && isfresh(result0) && result0.gpath == name && !result0.gwr && fs[name]
+//@   ensures result1 != nil ==> result0 == nil
+
+//@ func os.OpenFile
+//@   trusted
+//@   modifies fs, fdone, fsize
+//@   ensures result1 == nil ==> result0 != nil && isfresh(result0) && result0.gpath == name && result0.gwr && fs[name] && !fdone[name]
+//@   ensures result1 != nil ==> result0 == nil
+//@   ensures forall(p, p != name ==> fs[p] == old(fs[p]) && fdone[p] == old(fdone[p]) && fsize[p] == old(fsize[p]))
+
+// Close of a write handle settles the file: complete iff no error; its size becomes known.
+//@ func (*os.File).Close
+//@   trusted
+//@   modifies fdone, fsize
+//@   ensures f.gwr && result0 == nil ==> fdone[f.gpath]
+//@   ensures !(f.gwr && result0 == nil) ==> fdone[f.gpath] == old(fdone[f.gpath])
+//@   ensures !f.gwr ==> fsize[f.gpath] == old(fsize[f.gpath])
+//@   ensures forall(p, p != f.gpath ==> fdone[p] == old(fdone[p]) && fsize[p] == old(fsize[p]))
+
+//@ func (*os.File).Name
+//@   trusted
+//@   ensures result0 == f.gpath
+
+//@ func os.Remove
+//@   trusted
+//@   modifies fs
+//@   ensures result0 == nil ==> !fs[name]
+//@   ensures result0 != nil ==> fs[name] == old(fs[name])
+//@   ensures forall(p, p != name ==> fs[p] == old(fs[p]))
+
+//@ func os.RemoveAll
+//@   trusted
+//@   modifies fs
+//@   ensures result0 == nil ==> !fs[path]
+//@   ensures forall(p, p != path ==> fs[p] == old(fs[p]))
+
+//@ func os.MkdirAll
+//@   trusted
+
+//@ ghost func infoSize(uint64) int
+//@ func os.Stat
+//@   trusted
+//@   ensures result1 == nil ==> result0 != nil && fs[name] && infoSize(ref(result0)) == fsize[name] && 0 <= fsize[name] && fsize[name] < 9223372036854775808
+//@ func os.FileInfo.Size params(fi)
+//@   trusted
+//@   ensures result0 == infoSize(ref(fi))
+
+//@ func fmt.Errorf
+//@   trusted
+//@   ensures result0 != nil
+
+//@ func path/filepath.Join
+//@   trusted
+//@   ensures len(elem) == 2 ==> result0 == pjoin(elem[0], elem[1])
+
+// trusted: the byte-level encoding of the label is the business of C18 (encodings round-trip);
+// here the meta file is modelled by the abstract label it holds.
+//@ pure LabelAt(p uint64, i uint64, t uint64, ci uint64, ct uint64, sz int) bool = lIdx[p] == i && lTerm[p] == t && lCfgIdx[p] == ci && lCfgTerm[p] == ct && lSize[p] == sz
+//@ pure LabelSame(p uint64) bool = lIdx[p] == old(lIdx[p]) && lTerm[p] == old(lTerm[p]) && lCfgIdx[p] == old(lCfgIdx[p]) && lCfgTerm[p] == old(lCfgTerm[p]) && lSize[p] == old(lSize[p])
+//@ func (*snapshotMeta).encode
+//@   trusted
+//@   modifies lIdx, lTerm, lCfgIdx, lCfgTerm, lSize
+//@   ensures result0 == nil && istype(w, *os.File) ==> LabelAt(as(w, *os.File).gpath, m.index, m.term, m.config.Index, m.config.Term, m.size)
+//@   ensures istype(w, *os.File) ==> forall(p, p != as(w, *os.File).gpath ==> LabelSame(p))
+//@ func (*snapshotMeta).decode
+//@   trusted
+//@   modifies all(m)
+//@   ensures result0 == nil && istype(r, *os.File) ==> LabelAt(as(r, *os.File).gpath, m.index, m.term, m.config.Index, m.config.Term, m.size)
+
+// ---------------------------------------------------------------------------
+// snapshots.go
+
+//@ func (*snapshots).new
+//@   props C10 C12
+//@   requires [C10.snapshot-publish] PubInv(s.dir) && !fs[mfile(s.dir, index)]
+//@   modifies fs, fdone, fsize
+//@   crash_inv [C10.snapshot-publish] PubInv(s.dir)
+//@   ensures [C10.snapshot-publish] PubInv(s.dir) && !fs[mfile(s.dir, index)]
+//@   ensures [C12.label] result1 == nil ==> result0 != nil && isfresh(result0) && result0.snaps == s && result0.meta.index == index && result0.meta.term == term && result0.meta.config == config && result0.meta.size == 0
+//@   ensures result1 == nil ==> result0.file != nil && result0.file.gpath == sfile(s.dir, index) && result0.file.gwr && fs[sfile(s.dir, index)] && !fdone[sfile(s.dir, index)]
+//@   ensures result1 != nil ==> result0 == nil
+//@   ensures [C10.new-touches-data-file-only] forall(p, p != sfile(s.dir, index) ==> fs[p] == old(fs[p]) && fdone[p] == old(fdone[p]) && fsize[p] == old(fsize[p]))
+
+// SnapsInv: the latest snapshot (s.index, s.term) is published, complete and labelled with itself.
+//@ pure UsedOK(s *snapshots) bool = s.used != nil && forall(k, 0 <= s.used[k] && s.used[k] < 4611686018427387904)
+//@ pure SnapsInv(s *snapshots) bool = UsedOK(s) && (s.index == 0 ==> s.term == 0) && (s.index != 0 ==> fs[mfile(s.dir, s.index)] && lIdx[mfile(s.dir, s.index)] == s.index && lTerm[mfile(s.dir, s.index)] == s.term)
+
+//@ func (*snapshots).meta
+//@   modifies fdone, fsize
+//@   ensures [C12.meta-read] result1 == nil && s.index != 0 ==> LabelAt(mfile(s.dir, s.index), result0.index, result0.term, result0.config.Index, result0.config.Term, result0.size)
+//@   ensures s.index == 0 ==> result1 == nil && result0.index == 0 && result0.term == 0
+//@   ensures [C10.meta-exists] result1 == nil && s.index != 0 ==> fs[mfile(s.dir, s.index)]
+//@   ensures forall(p, fdone[p] == old(fdone[p]) && fsize[p] == old(fsize[p]))
+
+//@ func (*snapshots).open
+//@   props C10 C12
+//@   requires UsedOK(s)
+//@   modifies contents(s.used), fdone, fsize
+//@   ensures [C12.open-label] result1 == nil && s.index != 0 ==> LabelAt(mfile(s.dir, s.index), result0.meta.index, result0.meta.term, result0.meta.config.Index, result0.meta.config.Term, result0.meta.size)
+//@   ensures result1 == nil && s.index == 0 ==> result0.meta.index == 0 && result0.meta.term == 0
+//@   ensures [C10.open-validates-size] result1 == nil ==> fs[sfile(s.dir, result0.meta.index)] && fsize[sfile(s.dir, result0.meta.index)] == result0.meta.size
+//@   ensures result1 == nil ==> result0 != nil && isfresh(result0) && result0.snaps == s && result0.file != nil && result0.file.gpath == sfile(s.dir, result0.meta.index) && !result0.file.gwr
+//@   ensures [C09.open-pins] result1 == nil ==> forall(k, s.used[k] == old(s.used[k]) + ite(k == result0.meta.index, 1, 0))
+//@   ensures result1 != nil ==> result0 == nil && forall(k, s.used[k] == old(s.used[k]))
+//@   ensures forall(p, fdone[p] == old(fdone[p]) && fsize[p] == old(fsize[p]))
+
+//@ func (*snapshot).release
+//@   requires s.snaps != nil && s.snaps.used != nil && forall(k, s.snaps.used[k] <= 4611686018427387904) && s.file != nil && !s.file.gwr
+//@   requires [C09.release-pinned] s.snaps.used[s.meta.index] >= 1
+//@   modifies contents(s.snaps.used), fdone, fsize
+//@   ensures [C09.release-unpins] forall(k, s.snaps.used[k] == old(s.snaps.used[k]) - ite(k == s.meta.index, 1, 0))
+//@   ensures [C09.release-unpins] s.snaps.used[s.meta.index] == 0 ==> !has(s.snaps.used, s.meta.index)
+//@   ensures forall(p, fdone[p] == old(fdone[p]) && fsize[p] == old(fsize[p]))
+
+// ---------------------------------------------------------------------------
+// onRestoreReq (C03, C12)
+
+//@ func bufio.NewReader
+//@   trusted
+//@   ensures result0 != nil
+
+// trusted (user callback, T-cb): observed through ghost counters; touches no raft state.
+//@ ghost var grest int
+//@ ghost var grestFail bool
+//@ func FSM.Restore
+//@   trusted
+//@   modifies grest, grestFail
+//@   ensures grest == old(grest) + 1 && grestFail == (result0 != nil)
+
+//@ func (*stateMachine).onRestoreReq
+//@   props C03
+//@   requires fsm.FSM != nil && fsm.snaps != nil && SnapsInv(fsm.snaps)
+//@   modifies fsm.index, fsm.term, contents(fsm.snaps.used), fdone, fsize, grest, grestFail
+//@   ensures [C03.restore] result0 == nil ==> fsm.index == fsm.snaps.index && fsm.term == fsm.snaps.term
+//@   ensures [C03.restore-applied] result0 == nil ==> grest == old(grest) + 1 && !grestFail
+//@   ensures [C03.restore-at-most-once] grest <= old(grest) + 1
+//@   ensures [C03.restore-label] result0 == nil && fsm.snaps.index != 0 ==> fsm.index == lIdx[mfile(fsm.snaps.dir, fsm.snaps.index)] && fsm.term == lTerm[mfile(fsm.snaps.dir, fsm.snaps.index)]
+//@   ensures [C03.restore-failure-keeps] result0 != nil ==> fsm.index == old(fsm.index) && fsm.term == old(fsm.term)
+//@   ensures [C09.restore-unpins] forall(k, fsm.snaps.used[k] == old(fsm.snaps.used[k]))
+//@   ensures forall(p, fdone[p] == old(fdone[p]) && fsize[p] == old(fsize[p]))
+
+// ---------------------------------------------------------------------------
+// publishing and retaining snapshots (C10, C12, C09, C19)
+//   PubInv(d)  : every published snapshot (meta file present) has a complete data file
+//   AllBelow(s): no published snapshot is newer than the latest one the store knows
+//@ pure DataOK(d string, i uint64) bool = fs[sfile(d, i)] && fdone[sfile(d, i)]
+//@ pure PubInv(d string) bool = forall(i, fs[mfile(d, i)] ==> DataOK(d, i))
+//@ pure AllBelow(s *snapshots) bool = forall(i, fs[mfile(s.dir, i)] ==> i <= s.index)
+
+//@ func findSnapshots
+//@   trusted
+//@   ensures result1 == nil ==> forall(k, 0 <= k && k < len(result0) ==> fs[mfile(dir, result0[k])])
+//@   ensures result1 == nil ==> forall(j, k, 0 <= j && j < k && k < len(result0) ==> result0[j] > result0[k])
+//@   ensures result1 == nil ==> forall(k, 0 < k && k < len(result0) ==> result0[k] < result0[0]) && (len(result0) > 0 ==> fs[mfile(dir, result0[0])])
+//@   ensures len(result0) >= 0 && len(result0) < 9223372036854775807
+//@   ensures result1 == nil ==> forall(i, fs[mfile(dir, i)] ==> len(result0) > 0 && i <= result0[0])
+
+//@ pure RemovedOK(s *snapshots, p uint64, top uint64) bool = fs[p] != old(fs[p]) ==> !fs[p] && (p == mfile(s.dir, pidx(p)) || p == sfile(s.dir, pidx(p))) && s.used[pidx(p)] == 0 && (s.retain >= 1 ==> pidx(p) < top)
+//@ func (*snapshots).applyRetain
+//@   props C09 C10
+//@   requires s.used != nil
+//@   requires [C10.snapshot-publish] PubInv(s.dir)
+//@   modifies fs
+//@   crash_inv [C10.snapshot-publish] PubInv(s.dir)
+//@   ensures [C10.snapshot-publish] PubInv(s.dir)
+//@   ensures [C09.retain-only-removes-old-unpinned] forall(p, fs[p] != old(fs[p]) ==> !fs[p] && (p == mfile(s.dir, pidx(p)) || p == sfile(s.dir, pidx(p))) && s.used[pidx(p)] == 0)
+//@   ensures [C09.retain-keeps-latest] s.retain >= 1 && old(AllBelow(s)) && old(fs[mfile(s.dir, s.index)]) ==> fs[mfile(s.dir, s.index)] && fs[sfile(s.dir, s.index)] == old(fs[sfile(s.dir, s.index)])
+//@   loop 1 invariant -1 <= rangeindex && rangeindex < len(snaps) && (rangeindex == -1 ==> forall(p, fs[p] == old(fs[p])))
+//@   loop 1 invariant PubInv(s.dir) && forall(p, RemovedOK(s, p, snaps[0]))
+
+//@ pure TmpFile(s *snapshots) uint64 = pjoin(s.dir, "meta.tmp")
+//@ func (*snapshotSink).done
+//@   props C10 C12
+//@   requires s.snaps != nil && s.snaps.used != nil && s.file != nil && s.file.gwr && s.file.gpath == sfile(s.snaps.dir, s.meta.index)
+//@   requires [C10.snapshot-publish] PubInv(s.snaps.dir) && !fs[mfile(s.snaps.dir, s.meta.index)]
+//@   requires [C19.snapshot-forward] s.snaps.index <= s.meta.index && AllBelow(s.snaps)
+//@   requires s.snaps.retain >= 1
+//@   modifies fs, fdone, fsize, lIdx, lTerm, lCfgIdx, lCfgTerm, lSize, s.meta.size, s.snaps.index, s.snaps.term
+//@   crash_inv [C10.snapshot-publish] PubInv(s.snaps.dir)
+//@   ensures [C10.snapshot-publish] PubInv(s.snaps.dir)
+//@   ensures [C12.label] result0.index == old(s.meta.index) && result0.term == old(s.meta.term) && result0.config == old(s.meta.config)
+//@   ensures [C12.label] result1 == nil ==> LabelAt(TmpFile(s.snaps), result0.index, result0.term, result0.config.Index, result0.config.Term, result0.size) && result0.size == fsize[sfile(s.snaps.dir, result0.index)]
+//@   ensures [C10.published] result1 == nil ==> fs[mfile(s.snaps.dir, result0.index)] && DataOK(s.snaps.dir, result0.index)
+//@   ensures [C19.snapshot-index-monotone] s.snaps.index >= old(s.snaps.index)
+//@   ensures [C09.latest-updated-after-publish] (result1 == nil ==> s.snaps.index == result0.index && s.snaps.term == result0.term) && (result1 != nil ==> s.snaps.index == old(s.snaps.index) && s.snaps.term == old(s.snaps.term))
+//@   ensures [C10.failure-publishes-nothing] result1 != nil ==> forall(i, fs[mfile(s.snaps.dir, i)] == old(fs[mfile(s.snaps.dir, i)]))
+//@   ensures [C10.failure-publishes-nothing] old(err) != nil ==> result1 != nil
+//@   ensures AllBelow(s.snaps)
+
+// ---------------------------------------------------------------------------
+// taking a snapshot (C09, C12)
+
+// STUB (outside area fsm)
+//@ func newTask
+//@   ensures result0 != nil && isfresh(result0) && result0.result == nil
+//@ func (*task).Err
+//@   inline
+//@ func (*task).Result
+//@   inline
+
+// Goroutine boundary (T-go): waiting on t.done is where the reply written by the serving goroutine
+// becomes visible, so Done() is modelled as the point where t.result changes. The protocol
+// assumption PA-ch.snap-reply describes the reply to an fsmSnapReq exactly as onSnapReq (verified
+// above) produces it: an error, or an fsmSnapResp carrying the (index, term) the FSM goroutine had
+// applied when it produced the state. gsnapIdx/gsnapTerm name those two values; gwaitSnap says that
+// the task waited on belongs to an fsmSnapReq sent on fsm.ch (ghost state cannot be assigned by
+// code, so the waiting function states it as a precondition).
+//@ ghost var gwaitSnap bool
+//@ ghost var gsnapIdx uint64
+//@ ghost var gsnapTerm uint64
+//@ pure SnapReply(t *task) bool = (istype(t.result, fsmSnapResp) || istype(t.result, plainError) || istype(t.result, OpError)) && (istype(t.result, OpError) ==> as(t.result, OpError).Err != nil) && (istype(t.result, fsmSnapResp) ==> as(t.result, fsmSnapResp).state != nil && as(t.result, fsmSnapResp).index == gsnapIdx && as(t.result, fsmSnapResp).term == gsnapTerm)
+//@ func (*task).Done
+//@   trusted
+//@   modifies t.result
+//@   ensures [PA-ch.snap-reply] gwaitSnap ==> SnapReply(t)
+//@   ensures !isfresh(ref(t.result))
+
+//@ func bufio.NewWriter
+//@   trusted
+//@   ensures result0 != nil
+
+// cfgIdxAt(i): index of the newest configuration entry at or below log index i (a function of the
+// committed log); greqCommit: the commit index when the request was accepted by onTakeSnapshot.
+//@ ghost func cfgIdxAt(uint64) uint64
+//@ ghost var greqCommit uint64
+
+//@ func doTakeSnapshot
+//@   props C12 C09
+//@   requires [PA-ch.snap-reply] gwaitSnap
+//@   requires fsm.snaps != nil && fsm.snaps.used != nil && fsm.snaps.retain >= 1
+//@   requires PubInv(fsm.snaps.dir) && AllBelow(fsm.snaps)
+//@   requires [PA.request-config] config.Index == cfgIdxAt(greqCommit)
+//@   modifies fs, fdone, fsize, lIdx, lTerm, lCfgIdx, lCfgTerm, lSize, fsm.snaps.index, fsm.snaps.term
+//@   ensures [C12.index-term] result1 == nil ==> result0.index == gsnapIdx && result0.term == gsnapTerm
+//@   ensures [C12.config-as-requested] result1 == nil ==> result0.config == config
+//@   ensures [C12.membership] result1 == nil ==> result0.config.Index == cfgIdxAt(result0.index)
+//@   ensures [C12.label] result1 == nil ==> LabelAt(TmpFile(fsm.snaps), result0.index, result0.term, result0.config.Index, result0.config.Term, result0.size)
+//@   ensures [C10.published] result1 == nil ==> fs[mfile(fsm.snaps.dir, result0.index)] && DataOK(fsm.snaps.dir, result0.index) && fsm.snaps.index == result0.index && fsm.snaps.term == result0.term
+//@   ensures [C10.snapshot-publish] PubInv(fsm.snaps.dir)
+//@   ensures [C19.snapshot-index-monotone] fsm.snaps.index >= old(fsm.snaps.index)
+//@   ensures [C09.failure-keeps-latest] result1 != nil ==> fsm.snaps.index == old(fsm.snaps.index) && fsm.snaps.term == old(fsm.snaps.term)
+// (dropped: an OpError built from the nil `err` instead of `doneErr` -- D13 -- only arises after a storage error, which is outside the premise of C15; noted in DESIGN.md)
+
+// The goroutine started here is not executed by the engine (T-go): the arguments it receives
+// (r.snaps.index + t.threshold, r.configs.Committed -- both read at REQUEST time) are therefore not
+// observable in a postcondition; see C12.membership of doTakeSnapshot.
+//@ func (*Raft).onTakeSnapshot
+//@   props C09
+//@   requires r.storage != nil && r.snaps != nil && t.task != nil
+//@   modifies r.snapTakenCh, t.task.result, t.task.greplied
+//@   ensures [C09.single-snapshot] old(r.snapTakenCh) != nil ==> r.snapTakenCh == old(r.snapTakenCh) && istype(t.task.result, InProgressError) && t.task.greplied == old(t.task.greplied) + 1
+//@   ensures [C09.single-snapshot] old(r.snapTakenCh) == nil ==> r.snapTakenCh != nil && isfresh(r.snapTakenCh) && t.task.greplied == old(t.task.greplied) && t.task.result == old(t.task.result)
+
+// ---------------------------------------------------------------------------
+// onSnapshotTaken: compaction after a snapshot (C09, C19)
+
+// trusted abstract views of the log API (verified / to be verified in the log package: C13.contains,
+// C09.canlte, C09.removelte): CanLTE returns PrevIndex or a segment boundary <= i; RemoveLTE leaves
+// PrevIndex at such a boundary and never touches the entries above it.
+//@ view (*log.Log).Contains
+//@   ensures result0 == (i > l.gprev && i <= l.glast)
+//@ view (*log.Log).CanLTE
+//@   ensures result0 >= l.gprev && result0 <= l.glast && (result0 > l.gprev ==> result0 <= i)
+//@ view (*log.Log).RemoveLTE
+//@   modifies l.gprev
+//@   ensures l.gprev >= old(l.gprev) && l.gprev <= l.glast && (l.gprev > old(l.gprev) ==> l.gprev <= i)
+
+// STUB (outside area fsm): storage.go
+//@ func (*storage).removeLTE
+//@   requires s.log != nil
+//@   modifies s.log.gprev
+//@   ensures [C09.removelte] s.log.gprev >= old(s.log.gprev) && s.log.gprev <= s.log.glast && (s.log.gprev > old(s.log.gprev) ==> s.log.gprev <= index)
+//@   ensures result0 != nil ==> istype(result0, OpError)
+//@ func (*Raft).compactLog
+//@   requires RaftWF(r) && r.log != nil
+//@   requires [C09.compact-bound] lte <= r.snaps.index
+//@   modifies r.storage.log.gprev
+//@   ensures [C09.removelte] r.log.gprev >= old(r.log.gprev) && r.log.gprev <= r.log.glast && (r.log.gprev > old(r.log.gprev) ==> r.log.gprev <= lte)
+
+// STUB (outside area fsm): leader.go. The view handed to the replications must exist.
+//@ func (*leader).notifyFlr
+//@   requires l.Raft != nil && l.storage != nil && l.log != nil
+//@   requires [C09.notify-view-valid] l.log.gprev <= l.removeLTE && l.removeLTE <= l.lastLogIndex && l.lastLogIndex <= l.log.glast
+
+// trusted (external, T-std)
+//@ ghost func tzero(uint64, int64) bool
+//@ func (time.Time).IsZero
+//@   trusted
+//@   ensures result0 == tzero(t.wall, t.ext)
+
+//@ pure Reachable(x *replication) bool = tzero(x.status.noContact.wall, x.status.noContact.ext)
+//@ pure ReplMatch(x *replication) uint64 = x.status.matchIndex
+//@ pure ReplsOK(l *leader) bool = forall(k, has(l.repls, k) ==> l.repls[k] != nil)
+
+//@ func (*Raft).onSnapshotTaken
+//@   props C09 C19
+//@   requires RaftWF(r) && r.log != nil && r.ldr != nil && r.ldr.Raft == r && ReplsOK(r.ldr) && t.req.task != nil && r.snaps != nil
+//@   requires r.log.glast == r.lastLogIndex
+//@   requires [PA-ch.snap-taken] t.err == nil ==> t.meta.index <= r.snaps.index
+//@   modifies r.snapTakenCh, r.storage.log.gprev, r.ldr.removeLTE, t.req.task.result, t.req.task.greplied
+//@   ensures [C09.single-snapshot] r.snapTakenCh == nil
+//@   ensures [C15.reply-once] t.req.task.greplied == old(t.req.task.greplied) + 1
+//@   ensures [C09.reply] (t.err == nil ==> istype(t.req.task.result, uint64) && as(t.req.task.result, uint64) == t.meta.index) && (t.err != nil ==> t.req.task.result == t.err)
+//@   ensures [C09.failed-snapshot-compacts-nothing] t.err != nil ==> r.log.gprev == old(r.log.gprev) && r.ldr.removeLTE == old(r.ldr.removeLTE)
+//@   ensures [C09.compact-bound] r.log.gprev >= old(r.log.gprev) && (r.log.gprev > old(r.log.gprev) ==> r.log.gprev <= t.meta.index && r.log.gprev <= r.snaps.index)
+//@   ensures [C19.prev-below-snapshot] old(r.log.gprev) <= r.snaps.index ==> r.log.gprev <= r.snaps.index
+//@   ensures [C09.compact-bound] r.log.gprev > old(r.log.gprev) && r.state == Leader ==> forall(k, has(r.ldr.repls, k) ==> r.log.gprev <= ReplMatch(r.ldr.repls[k]))
+//@   ensures [C09.compact-bound] r.ldr.removeLTE != old(r.ldr.removeLTE) ==> r.ldr.removeLTE <= t.meta.index && r.ldr.removeLTE >= r.log.gprev && r.ldr.removeLTE <= r.lastLogIndex
+//@   ensures [C09.compact-bound] r.ldr.removeLTE != old(r.ldr.removeLTE) && r.state == Leader ==> forall(k, has(r.ldr.repls, k) && Reachable(r.ldr.repls[k]) ==> r.ldr.removeLTE <= ReplMatch(r.ldr.repls[k]))
+//@   loop 1 invariant nowCompact <= t.meta.index && canCompact <= t.meta.index
+//@   loop 1 invariant forall(k, visited(k) ==> nowCompact <= ReplMatch(r.ldr.repls[k]))
+//@   loop 1 invariant forall(k, visited(k) && Reachable(r.ldr.repls[k]) ==> canCompact <= ReplMatch(r.ldr.repls[k]))
+
+// ---------------------------------------------------------------------------
+// opening the snapshot store at start-up (C10, C12)
+//   DiskLabelInv(d): every published meta file is labelled with the index in its name (what done()
+//   publishes; see the report: needs os.Rename to carry file contents)
+//@ pure DiskLabelInv(d string) bool = forall(i, fs[mfile(d, i)] ==> lIdx[mfile(d, i)] == i)
+
+//@ func openSnapshots
+//@   props C10 C12
+//@   modifies fdone, fsize
+//@   ensures result1 != nil ==> result0 == nil
+//@   ensures result1 == nil ==> result0 != nil && isfresh(result0) && result0.dir == dir && result0.retain == opt.SnapshotsRetain && UsedOK(result0)
+//@   ensures [C10.reopen-latest] result1 == nil ==> AllBelow(result0) && (result0.index != 0 ==> fs[mfile(dir, result0.index)]) && (result0.index == 0 ==> result0.term == 0)
+//@   ensures [C12.reopen-term] result1 == nil && result0.index != 0 ==> result0.term == lTerm[mfile(dir, result0.index)]
+//@   ensures [C12.reopen-label] result1 == nil && DiskLabelInv(dir) ==> SnapsInv(result0)
+//@   ensures forall(p, fdone[p] == old(fdone[p]) && fsize[p] == old(fsize[p]))
+
+//@ func (*snapshots).latest
+//@   ensures result0 == s.index && result1 == s.term
